@@ -19,8 +19,8 @@ git apply "$SRC/patch.diff" || { echo "$ID: patch does not apply"; git checkout 
 if go build $TAGARG ./... >/dev/null 2>&1; then build=OK; else build=FAIL; fi
 if (cd "$pdir" && go test $TAGARG -vet=off -count=1 -run "^${name}\$" . >/tmp/vs2.$$.log 2>&1); then patched=PASS; else patched=FAIL; fi
 rm -f "$pdir/zz_seed_demo_test.go"
-if /tmp/seedtools/run_suite.sh "$WT" >/tmp/vs3.$$.log 2>&1; then suite=OK; else suite=FAIL; fi
-if [ $suite = FAIL ]; then sleep 1; if /tmp/seedtools/run_suite.sh "$WT" >/tmp/vs3.$$.log 2>&1; then suite=OK-on-retry; fi; fi
+if /verif/tools/run_suite.sh "$WT" >/tmp/vs3.$$.log 2>&1; then suite=OK; else suite=FAIL; fi
+if [ $suite = FAIL ]; then sleep 1; if /verif/tools/run_suite.sh "$WT" >/tmp/vs3.$$.log 2>&1; then suite=OK-on-retry; fi; fi
 git checkout -q -- . && git clean -fdq
 echo "$ID: clean-demo=$clean build=$build patched-demo=$patched suite=$suite"
 if [ $clean = PASS ] && [ $build = OK ] && [ $patched = FAIL ] && [ "${suite#OK}" != "$suite" ]; then
